@@ -277,7 +277,8 @@ Proof.
   unfold wire_unsigned. rewrite get_val_put_int4 by lia.
   destruct (N.eqb_spec (Z.to_N (s + zone_off zone)) 4294967295) as [E|_]; [lia|].
   eexists. split; [reflexivity|]. rewrite (norm_field_local pf s 0 zone Hk Ha).
-  unfold local_time_of. destruct ref as [r|]; rewrite (norm_field_local pf _ _ _ Hk Ha); cbn [zone_off]; f_equal; lia.
+  unfold local_time_of. destruct ref as [r|]; [destruct (r <? c_systemTimeMarker)|];
+    rewrite (norm_field_local pf _ _ _ Hk Ha); cbn [zone_off]; f_equal; lia.
 Qed.
 
 Lemma wire_signed_put32 be z : (-2147483648 <= z <= 2147483647)%Z -> wire_signed be (put_int be 4 (of_signed 32 z)) = z.
